@@ -20,6 +20,7 @@ import io
 import itertools
 import json
 import os
+import re
 import signal
 import sys
 import types
@@ -349,6 +350,9 @@ def static_probe(repo, pkg, subpackages):
 # ----------------------------------------------------------------------------------------------------------
 # behaviour mode
 
+_ADDR = re.compile(r"(0x|memory:)[0-9a-fA-F]+")
+
+
 class _Timeout(BaseException):
     pass
 
@@ -361,7 +365,9 @@ def summarise(v, depth=0):
     """a deterministic, address-free summary of a result"""
     if depth > 3:
         return "..."
-    if v is None or isinstance(v, (bool, int, str)):
+    if isinstance(v, str):
+        return repr(_ADDR.sub("ADDR", v))[:80]
+    if v is None or isinstance(v, (bool, int)):
         return repr(v)[:60]
     if isinstance(v, float):
         return repr(round(v, 9))
@@ -529,7 +535,26 @@ def behaviour_probe(repo, pkg, full, subpackages):
                     extras.append(r)
         res = {}
         for n in sorted(set(names)):
-            res[n] = exercise(pkgmod, n, extras)
+            # every public name in its own copy of the freshly imported interpreter (fork): what one element
+            # imports at call time must not help the next one
+            r, w = os.pipe()
+            pid = os.fork()
+            if pid == 0:
+                try:
+                    os.close(r)
+                    try:
+                        one = exercise(pkgmod, n, extras)
+                    except BaseException as e:   # noqa
+                        one = {"fatal": outcome_exc(e)}
+                    with os.fdopen(w, "w") as fh:
+                        fh.write(json.dumps(one))
+                finally:
+                    os._exit(0)
+            os.close(w)
+            with os.fdopen(r) as fh:
+                data = fh.read()
+            os.waitpid(pid, 0)
+            res[n] = json.loads(data) if data else {"fatal": "child died"}
         out["results"] = res
     except BaseException as e:   # noqa
         out["fatal"] = exc_info(e)
